@@ -39,6 +39,18 @@ func main() {
 		runHostile(*seed, *tier, *vectors, *out, *shards, *only)
 	case "hostile-worker":
 		runHostileWorker(*seed)
+	case "hist":
+		runHist(*vectors, *out, *shards, *only)
+	case "extract":
+		runExtract(*seed, *tier, *out, *shards, *only)
+	case "extract-worker":
+		runExtractWorker()
+	case "concsched":
+		runConcSched(*vectors, *out, *shards, *only)
+	case "concload":
+		runConcLoad(*seed, *tier, *out, *shards)
+	case "inventory":
+		runInventory("/repo", *out)
 	case "poolseq":
 		runPoolSeq(*vectors, *out, *shards, *only)
 	case "poolconc":
